@@ -70,7 +70,7 @@ func verifC15Order(e int, msgLen int) {
 	for i := 0; i < e; i++ {
 		t := vsymUint64("T")
 		msg := vsymString("msg", vsymChoice("msglen", msgLen+1))
-		inFirst := i%2 == 0
+		inFirst := vsymBool("inFirstStream") // any split of the entries over the two streams, in any order inside a stream
 		name := "b"
 		if inFirst {
 			name = "a"
